@@ -70,6 +70,7 @@ def conclude(mod, ctx, merged, wall):
         "bounds": dict(ctx.notes.get("bounds", {}), **({"context_routes": ctx.notes["context_routes"]} if "context_routes" in ctx.notes else {})),
         "per_backend": merged.per_backend,
         "tasks": merged.tasks,
+        "task_groups": merged.by_tag,
         "counters": merged.counters,
         "distinct_outcomes_sample": sorted(merged.outcomes)[:20],
         "known_findings_seen": {k: v[0] for k, v in merged.known.items()},
